@@ -186,7 +186,8 @@ class GenElab:
         acc = lambda kind, decos: self._with(self.member("p", kind), decos)   # noqa: E731
         fn = lambda name, kind, decos: self._with(self.member(name, kind), decos)   # noqa: E731
         shape = rng.choice(["prop-missing-accessor", "prop-accessor-of-other-base", "inherited-static", "diamond-posts",
-                            "invariant-events", "special-of-second-base", "late-decoration", "callable-object-on-base"])
+                            "invariant-events", "special-of-second-base", "late-decoration", "callable-object-on-base",
+                            "plain-mixin"])
         order = rng.choice([[0, 1], [1, 0]])
         if shape == "prop-missing-accessor":
             # one base shows the property without the accessor, the other one with it and with contracts
@@ -224,6 +225,12 @@ class GenElab:
             ops = [self._cls([], [fn("f", "plain", rng.choice([[req()], [req(), ens()], [ens()]]) + [["foreign", self.fk, "obj"]])]),
                    self._cls([0], [fn("f", "plain", rng.choice([[], [req()], [ens()]]))]),
                    self._cls(rng.choice([[0], [1]]), [fn("f", "plain", rng.choice([[], [ens()]]))])]
+        elif shape == "plain-mixin":
+            # an ordinary class (no meta-class) with contracts as root or mix-in of a hierarchy on the DBC base
+            kind = rng.choice(["plain", "plain", "static", "classm"])
+            ops = [self._cls([], [fn("f", kind, rng.choice([[req()], [req(), ens()], [ens()]]))], dbc=False),
+                   self._cls([0], [fn("f", kind, rng.choice([[], [ens()], [req()]]))], dbc=True),
+                   self._cls([1], rng.choice([[], [fn("f", kind, rng.choice([[], [ens()]]))]]))]
         elif shape == "late-decoration":
             # a member of a sub-class gets one more contract after the classes exist
             ops = [self._cls([], [fn("f", "plain", rng.choice([[req()], [req(), ens()], [ens()]]))]),
